@@ -85,11 +85,62 @@ def render(t, uni, backend, style=None, md=None):
         if k == "Root":
             names = [c["a"] for c in ch[1:]]
             return "ResultTTree(%s, %r, %r, %r)" % (r(ch[0]), names if len(names) != 1 or t["d"] != 0 else names[0], t["a"], t["b"])
+        if k == "CmpChain":
+            return "(%s < %s < %s)" % (r(ch[0]), r(ch[1]), r(ch[2]))
+        if k == "AggOnly":
+            return seqop("Aggregate", r(ch[0]), ["lambda a, v: (a + v)"])
+        if k == "AggFunc":
+            return seqop("Aggregate", r(ch[0]), ["lambda v: v", "lambda a, v: (a + v)"])
+        if k == "CountExtra":
+            return seqop("Count", r(ch[0]), ["1"])
+        if k == "FirstPred":
+            return seqop("First", r(ch[0]), ["lambda x: True"])
+        if k == "Slice":
+            return "%s[0:1]" % r(ch[0])
+        if k == "GetAttr":
+            return "%s.getAttribute(%r)" % (r(ch[0]), t["a"])
+        if k == "BadMeta":
+            return "MetaData(%s, %r)" % (r(ch[0]), bad_metadata(t["a"], backend, b))
         if k == "Raw":
             return t["a"]
         raise ValueError("cannot render node kind %r" % k)
 
     return r(t)
+
+
+_COLL_MD = {"atlas": "add_atlas_event_collection_info", "cms_aod": "add_cms_aod_event_collection_info",
+            "cms_miniaod": "add_cms_miniaod_event_collection_info"}
+
+
+def bad_metadata(which, backend, b):
+    """The malformed / unknown / foreign declarations named by spec/Grafts.tla (inputs, written out)."""
+    cls = b["classes"]["A"]
+    good_coll = {"metadata_type": _COLL_MD[backend], "name": "VpColl", "include_files": ["vp.h"],
+                 "container_type": "vp::Container", "element_type": "vp::Element", "contains_collection": True}
+    if which == "unknown_type":
+        return {"metadata_type": "vp_no_such_metadata_type"}
+    if which == "no_type":
+        return {"name": "vp"}
+    if which == "method_missing_keys":
+        return {"metadata_type": "add_method_type_info", "type_string": cls}
+    if which == "inject_unknown_field":
+        return {"metadata_type": "inject_code", "name": "vp_block", "no_such_field": ["x"]}
+    if which == "function_missing_keys":
+        return {"metadata_type": "add_cpp_function", "name": "vp_f"}
+    if which == "collection_other_backend":
+        other = "cms_aod" if backend == "atlas" else "atlas"
+        d = dict(good_coll)
+        d["metadata_type"] = _COLL_MD[other]
+        return d
+    if which == "collection_extra_key":
+        d = dict(good_coll)
+        d["vp_extra_key"] = 1
+        return d
+    if which == "collection_missing_element":
+        d = dict(good_coll)
+        del d["element_type"]
+        return d
+    raise ValueError("unknown bad metadata variant " + which)
 
 
 def compact(t):
